@@ -42,4 +42,157 @@ theorem ordered_choice_next (fuel : Nat) (p : Prim) (ps : List Prim) (mark e : N
 theorem empty_choice_fails (fuel mark : Nat) (s : St) : (execSeqAlts prog w (fuel + 1) [] mark s).1 = .fail mark := by
   simp [execSeqAlts]
 
+
+/-! ### repetition: greedy, stops at the first failure, keeps what it consumed -/
+
+/-- **star_continues_after_success.**  `e*` / `e+`: after a successful `e` the loop goes on from where `e` ended, one
+    more element counted. -/
+theorem star_continues_after_success (fuel : Nat) (p : Prim) (mark n e : Nat) (s : St)
+    (h : (execPrim prog w fuel p s).1 = .ok e) :
+    execRepeat prog w (fuel + 1) p mark n s =
+      execRepeat prog w fuel p (execPrim prog w fuel p s).2.pos (n + 1) (execPrim prog w fuel p s).2 := by
+  simp only [execRepeat, h, Res.isAbort, Bool.false_eq_true, if_false]
+
+/-- **star_stops_at_first_failure.**  ... and the first failing `e` ends it: the position goes back to the end of the last
+    successful element (`mark`), the elements so far are the result - nothing consumed by the failed attempt is kept. -/
+theorem star_stops_at_first_failure (fuel : Nat) (p : Prim) (mark n e : Nat) (s : St)
+    (h : (execPrim prog w fuel p s).1 = .fail e) :
+    execRepeat prog w (fuel + 1) p mark n s = (n, .ok mark, (execPrim prog w fuel p s).2.reset mark) := by
+  simp only [execRepeat, h, Res.isAbort, Bool.false_eq_true, if_false]
+
+/-- **plus_requires_one.**  As an item, a repetition with zero elements is a failure (`e+`: the generator routes `e*`
+    through an optional item). -/
+theorem plus_requires_one (fuel : Nat) (p : Prim) (s : St)
+    (h0 : (execRepeat prog w fuel p s.pos 0 s).1 = 0) (hna : (execRepeat prog w fuel p s.pos 0 s).2.1.isAbort = false) :
+    (execItem prog w (fuel + 1) (.repeated p) s).1.isOk = false := by
+  simp only [execItem, hna, Bool.false_eq_true, if_false, h0, if_true, Res.isOk]
+
+/-! ### separated lists -/
+
+/-- **gather_needs_first_element.**  `sep.e+` fails, at its start position, when the first element fails. -/
+theorem gather_needs_first_element (fuel : Nat) (e sp : Prim) (s : St) (x : Nat)
+    (h : (execSeqAlts prog w fuel [e] s.pos s).1 = .fail x) :
+    (execItem prog w (fuel + 1) (.gathered e sp) s).1 = .fail s.pos ∧ (execItem prog w (fuel + 1) (.gathered e sp) s).2.pos = s.pos := by
+  simp [execItem, h, Res.isAbort, St.reset]
+
+/-- **gather_gives_back_dangling_separator.**  A separator that is not followed by an element is not consumed: the list
+    ends at the end of the last element. -/
+theorem gather_gives_back_dangling_separator (fuel : Nat) (e sp : Prim) (mark n a b : Nat) (s : St)
+    (hs : (execPrim prog w fuel sp s).1 = .ok a)
+    (he : (execSeqAlts prog w fuel [e] (execPrim prog w fuel sp s).2.pos (execPrim prog w fuel sp s).2).1 = .fail b) :
+    (execSepRepeat prog w (fuel + 1) e sp mark n s).1 = n ∧ (execSepRepeat prog w (fuel + 1) e sp mark n s).2.1 = .ok mark ∧
+      (execSepRepeat prog w (fuel + 1) e sp mark n s).2.2.pos = mark := by
+  simp [execSepRepeat, hs, he, Res.isAbort, St.reset]
+
+/-- **gather_stops_without_separator.** -/
+theorem gather_stops_without_separator (fuel : Nat) (e sp : Prim) (mark n a : Nat) (s : St)
+    (hs : (execPrim prog w fuel sp s).1 = .fail a) :
+    execSepRepeat prog w (fuel + 1) e sp mark n s = (n, .ok mark, (execPrim prog w fuel sp s).2.reset mark) := by
+  simp only [execSepRepeat, hs, Res.isAbort, Bool.false_eq_true, if_false]
+
+/-! ### cut, forced tokens, optional items -/
+
+/-- **cut_commits.**  When an alternative fails after its cut `~`, the rule fails: the later alternatives are not tried. -/
+theorem cut_commits (fuel rid idx mark : Nat) (a : Alt) (as : List Alt) (s : St)
+    (hna : (execItems prog w fuel a.items false [] s).2.2.1.isAbort = false)
+    (hfail : (execItems prog w fuel a.items false [] s).1 = false)
+    (hcut : (execItems prog w fuel a.items false [] s).2.1 = true) :
+    (execAlts prog w (fuel + 1) rid idx (a :: as) mark s).1 = .fail mark := by
+  simp only [execAlts, hna, Bool.false_eq_true, if_false, hfail, hcut, if_true]
+
+/-- **without_cut_next_alternative.**  Without a cut the next alternative is tried from the rule's start position. -/
+theorem without_cut_next_alternative (fuel rid idx mark : Nat) (a : Alt) (as : List Alt) (s : St)
+    (hna : (execItems prog w fuel a.items false [] s).2.2.1.isAbort = false)
+    (hfail : (execItems prog w fuel a.items false [] s).1 = false)
+    (hcut : (execItems prog w fuel a.items false [] s).2.1 = false) :
+    execAlts prog w (fuel + 1) rid idx (a :: as) mark s =
+      execAlts prog w fuel rid (idx + 1) as mark ((execItems prog w fuel a.items false [] s).2.2.2.1.reset mark) := by
+  simp only [execAlts, hna, Bool.false_eq_true, if_false, hfail, hcut]
+
+/-- **forced_raises_on_failure.**  `&&e`: a failing forced token is a SyntaxError, not a failure of the alternative. -/
+theorem forced_raises_on_failure (fuel : Nat) (p : Prim) (what x : Nat) (s : St)
+    (h : (execPrim prog w fuel p s).1 = .fail x) : (execItem prog w (fuel + 1) (.forced p what) s).1 = .raised := by
+  simp only [execItem, h, Res.isAbort, Res.isOk, Bool.false_eq_true, if_false]
+
+/-- **optional_never_fails.**  `[e]`: a failing optional item lets the alternative go on with the following items (from
+    wherever the failed attempt left the position - the generated methods reset before they return). -/
+theorem optional_never_fails (fuel : Nat) (it : AltItem) (its : List AltItem) (cut : Bool) (oks : List Bool) (s : St) (x : Nat)
+    (hopt : it.opt = true) (hitem : it.item ≠ .setCut ∧ it.item ≠ .guardInvalid)
+    (h : (execItem prog w fuel it.item s).1 = .fail x) :
+    execItems prog w (fuel + 1) (it :: its) cut oks s = execItems prog w fuel its cut (false :: oks) (execItem prog w fuel it.item s).2 := by
+  rw [execItems]
+  cases hi : it.item with
+  | setCut => exact absurd hi hitem.1
+  | guardInvalid => exact absurd hi hitem.2
+  | _ => simp only [hi] at h ⊢ <;> simp only [h, hopt, Res.isAbort, Res.isOk, Bool.false_eq_true, if_false, Bool.or_true, if_true]
+
+/-! ### the memo flag -/
+
+/-- **memo_second_call_is_the_first_result.**  A memoised rule asked again at a position for which its cache holds a
+    success returns exactly that success and moves to its end: the body is not run (`memo_hit_is_constant` counts the cost). -/
+theorem memo_second_call_is_the_first_result (fuel id e : Nat) (r : Rule) (s : St)
+    (hr : prog[id]? = some r) (hd : r.deco = .memo) (hc : cacheGet s.cache s.pos id = some (.ok e)) :
+    execRule prog w (fuel + 1) id s = (.ok e, s.reset e) := by
+  simp only [execRule, hr, hd, hc]
+
+
+/-! ### the generator's inlining of a choice of single items (`rhs_helper` -> `seq_alts`) -/
+
+/-- the long form of one operand: an alternative `x=p { x }` -/
+def inlineAlt (p : Prim) : Alt := { items := [⟨.call p, false⟩], act := .truthy, cut := false }
+
+/-- equal up to the record of fired alternatives (which only the long form keeps) -/
+def SameButFired (a b : St) : Prop :=
+  a.pos = b.pos ∧ a.invalid = b.invalid ∧ a.verbose = b.verbose ∧ a.cache = b.cache ∧ a.fetched = b.fetched ∧ a.assumed = b.assumed ∧
+  a.resets = b.resets ∧ a.peeks = b.peeks ∧ a.nexts = b.nexts
+
+/-- equal results, the payload of a success aside (the long form returns the position, the short form what the operand returned) -/
+def SameVerdict (a b : Res) : Prop := a = b ∨ (a.isOk = true ∧ b.isOk = true)
+
+/-- **inlined_choice_equiv.**  A rule whose alternatives are single items without actions behaves the same whether the
+    generator emits the standard method (`if (x := self.p1()): return x; self._reset(mark); if (x := self.p2()): ...`)
+    or the shortcut `return self.seq_alts(self.p1, self.p2, ...)`: same verdict, same position, cache, token and reset
+    counts - for every program, token list, state and fuel (the long form nests two calls deeper). -/
+theorem inlined_choice_equiv (g rid mark : Nat) (ps : List Prim) : ∀ (idx : Nat) (s : St),
+    SameVerdict (execAlts prog w (g + 3) rid idx (ps.map inlineAlt) mark s).1 (execSeqAlts prog w (g + 1) ps mark s).1 ∧
+    SameButFired (execAlts prog w (g + 3) rid idx (ps.map inlineAlt) mark s).2 (execSeqAlts prog w (g + 1) ps mark s).2 := by
+  induction ps generalizing g with
+  | nil => intro idx s; simp [execAlts, execSeqAlts, SameVerdict, SameButFired]
+  | cons p ps ih =>
+    intro idx s
+    cases g with
+    | zero =>
+      -- the operand call has no fuel in either form
+      simp [List.map_cons, execAlts, execSeqAlts, inlineAlt, execItems, execItem, execPrim, Res.isAbort, SameVerdict, SameButFired]
+    | succ g =>
+      have hA : execAlts prog w (g + 1 + 3) rid idx ((p :: ps).map inlineAlt) mark s =
+          (if (execPrim prog w (g + 1) p s).1.isAbort = true then ((execPrim prog w (g + 1) p s).1, (execPrim prog w (g + 1) p s).2)
+           else if (execPrim prog w (g + 1) p s).1.isOk = true then
+             (.ok (execPrim prog w (g + 1) p s).2.pos, { (execPrim prog w (g + 1) p s).2 with fired := (rid, idx) :: (execPrim prog w (g + 1) p s).2.fired })
+           else execAlts prog w (g + 3) rid (idx + 1) (ps.map inlineAlt) mark ((execPrim prog w (g + 1) p s).2.reset mark)) := by
+        simp only [List.map_cons, execAlts, inlineAlt, execItems, execItem]
+        by_cases hab : (execPrim prog w (g + 1) p s).1.isAbort = true
+        · simp [hab]
+        · by_cases hok : (execPrim prog w (g + 1) p s).1.isOk = true
+          · simp only [hab, hok, Bool.false_eq_true, if_false, if_true, Bool.true_or, execItems]
+            simp [show (Res.ok (execPrim prog w (g + 1) p s).2.pos).isAbort = false from rfl]
+          · simp [hab, hok]
+      have hB : execSeqAlts prog w (g + 1 + 1) (p :: ps) mark s =
+          (if (execPrim prog w (g + 1) p s).1.isAbort = true then ((execPrim prog w (g + 1) p s).1, (execPrim prog w (g + 1) p s).2)
+           else if (execPrim prog w (g + 1) p s).1.isOk = true then ((execPrim prog w (g + 1) p s).1, (execPrim prog w (g + 1) p s).2)
+           else execSeqAlts prog w (g + 1) ps mark ((execPrim prog w (g + 1) p s).2.reset mark)) := by
+        simp only [execSeqAlts]
+        by_cases hab : (execPrim prog w (g + 1) p s).1.isAbort = true
+        · simp [hab]
+        · cases hr : (execPrim prog w (g + 1) p s).1 <;> simp [hr, Res.isAbort, Res.isOk] at hab ⊢
+      rw [hA, hB]
+      by_cases hab : (execPrim prog w (g + 1) p s).1.isAbort = true
+      · simp only [hab, if_true]
+        exact ⟨Or.inl rfl, rfl, rfl, rfl, rfl, rfl, rfl, rfl, rfl, rfl⟩
+      · by_cases hok : (execPrim prog w (g + 1) p s).1.isOk = true
+        · simp only [hab, Bool.false_eq_true, if_false, hok, if_true]
+          exact ⟨Or.inr ⟨rfl, hok⟩, rfl, rfl, rfl, rfl, rfl, rfl, rfl, rfl, rfl⟩
+        · simp only [hab, Bool.false_eq_true, if_false, hok]
+          exact ih g (idx + 1) _
+
 end XV.Peg
